@@ -69,6 +69,10 @@ package totp2fa
 //@             before Store.Load(_) -> (?u, ?le) :: le == nil && PID(u) == v && replay_ok(u, vals))
 //@   ensures[C18] no_panic: !panics
 //@   ensures[C18] save_error_outcome: each Store.Save(_) -> ?e => e != nil ==> (result == e && !emits Sess.Put(_, _))
+//@   -- C18 (round 11, after C18k): a backend failure while looking the user up ends the request
+//@   -- with that error - it is not a reason to fall back to the login parked in the session
+//@   ensures[C18] load_error_outcome: each Store.Load(_) -> (_, ?e) => (e != nil && e != ErrUserNotFound) ==>
+//@       (result == e && !emits Sess.Put(_, _) && !emits Sess.Del(_) && !emits Store.Save(_) && !emits Respond(_, _, _) && !emits Redirect(_) && !(after Store.Load(_)))
 //@
 //@ func (*TOTP).Setup
 //@   property C13 C02
@@ -131,3 +135,7 @@ package totp2fa
 //@              (before Store.Load(_) -> (_, ?e0) :: e0 == ErrUserNotFound)))))
 //@   ensures[C13] never_logs_in: !emits Sess.Put(_, _)
 //@   ensures[C18] no_panic: !panics
+//@   -- C18 (round 11, after C18k): a backend failure while looking the user up ends the request
+//@   -- with that error - it is not a reason to fall back to the login parked in the session
+//@   ensures[C18] load_error_outcome: each Store.Load(_) -> (_, ?e) => (e != nil && e != ErrUserNotFound) ==>
+//@       (result == e && !emits Sess.Put(_, _) && !emits Sess.Del(_) && !emits Store.Save(_) && !emits Respond(_, _, _) && !emits Redirect(_) && !(after Store.Load(_)))
